@@ -210,6 +210,19 @@ PROPS = {
                    "visibility theorems for short tails and version-line cuts. Tie and remaining clauses: EVERY cut position of generated well-formed multi-record files (plain and per-record gzip, warn and strict, several spill thresholds) is read by implementation and model and compared, with survive / nothing-clean-after / visible / boundary judged on the implementation",
         level_note="Trusted: Lean kernel, correspondence harness. Modelled by hand: unmarshaler.go, warcfile.go Next. Proof is partial for the visible and nothing-after clauses (see model_assumptions); exhaustive enumeration covers them on the generated files.",
     ),
+    "C15": dict(
+        title="No temporary file or descriptor outlives Close",
+        lean_modules=["Gowarc.Props.C15"],
+        n_quick=3000, n_thorough=30000,
+        required_theorems=["C15_owned", "C15_close", "C15_scenario", "step_owned", "closed_stays", "run_close_closes"],
+        model_assumptions=["what an API call returned (a record or nil, the block kind, whether the block was cached and how many bytes) is observed on the implementation and handed to the model; the model decides ownership: which Close releases which buffer, when a buffer has a temp file",
+                           "operating system: one descriptor per temp file and per open reader; measured as the descriptors of the process that point into the scenario's private directories",
+                           "writing into a builder after its buffer was closed, and using a record that was returned together with an error for anything but Close, are outside the statement"],
+        design_ref="DESIGN.md section 5, C15",
+        level_text="Ownership model of spill buffers (builder, built record, parsed record, derived and merged records, file reader) with the invariant that every buffer that is not closed is reachable from an open handle, and the theorem that closing every handle - any order, repeated - leaves no temp file and no descriptor, for every scenario. "
+                   "Correspondence: after EVERY step of generated scenarios (sizes around the threshold, every block kind, read faults at arbitrary positions of the input, failing marshal targets, rejected reader offsets, Close in any order and twice) the number of temp files and descriptors measured on the implementation must equal the model's; zero after closing everything is judged on the implementation",
+        level_note="Trusted: Lean kernel, correspondence harness (directory listing, /proc/self/fd). Modelled by hand: closers in recordbuilder.go, unmarshaler.go, block.go, httpblock.go, record.go, warcfile.go reader; diskbuffer file lifetime.",
+    ),
 }
 
 
